@@ -48,11 +48,6 @@ def p_gen_async(case, record, expected_text):
                         lambda idle: idle[1] > 0 and (idle[0] > 0 or idle[4] == 0))
 
 
-def p_forof_ret(case, record, expected_text):
-    return _known_shape(case, record, expected_text, lambda n: n.get("t") == "forof" and n.get("ret"),
-                        lambda idle: idle[2] > 0 and idle[0] == 0 and idle[1] == 0)
-
-
 def async_stage(ctx):
     """second goroutine interrupts looping scripts; harness built with -race"""
     binp = vcheck.build_harness(ctx, "c15", race=True)
@@ -138,7 +133,6 @@ CFG = {
     ],
     "predicates": {
         "C15.interrupt_inside_generator_or_async_resumption": p_gen_async,
-        "C15.interrupt_inside_forof_with_script_return": p_forof_ret,
     },
     "manifest": {
         "text": ("proof (partial): over a Gallina transcription of the run loop, handleThrow and the frame discipline of every "
@@ -147,7 +141,7 @@ CFG = {
                  "interrupts), an uncatchable payload reaches no catch/finally for every try stack, an idle interrupt aborts the "
                  "next call at its first instruction and leaves the runtime idle, and every interleaving of Interrupt calls with "
                  "run-loop polls is race-free on interruptVal by lock order. Missing: the general idle-state-restored theorem "
-                 "(refuted on the tree for generator/async resumptions F16 and iterators with return() F20; otherwise only "
+                 "(refuted on the tree for generator/async resumptions F16; otherwise only "
                  "checked by correspondence), and Go-level data-race freedom beyond the protocol (race detector on executed "
                  "schedules only). Tie: 1500/100000 generated cases with an interrupt at every probe position compare error, "
                  "token, full event log, VerifIdle and a follow-up run with the model; 200/5000 asynchronous interrupts under -race."),
